@@ -373,6 +373,12 @@ func (s *vwScen) expire(d core.Duty) {
 	s.tick()
 }
 
+// sleep lets virtual time pass (round timers fire).
+func (s *vwScen) sleep(d time.Duration) {
+	time.Sleep(d)
+	s.tick()
+}
+
 func (s *vwScen) setDown(node int, down bool) {
 	s.net.mu.Lock()
 	s.net.down[node] = down
@@ -452,9 +458,36 @@ func vwRun(t *testing.T, out *vwOut, name string, seed int64, script func(s *vwS
 }
 
 func TestVerifWrapper(t *testing.T) {
-	seed := int64(vEnvInt("VERIF_SEED", 1))
-	out := &vwOut{Seed: seed, Stats: map[string]int{}, Decisions: map[string][]string{}}
-	att := func(slot uint64) core.Duty { return core.Duty{Slot: slot, Type: core.DutyAttester} }
+	seed0 := int64(vEnvInt("VERIF_SEED", 1))
+	out := &vwOut{Seed: seed0, Stats: map[string]int{}, Decisions: map[string][]string{}}
+	reps := 1
+	if os.Getenv("VERIF_TIER") == "thorough" {
+		reps = 4
+	}
+	for rep := 0; rep < reps; rep++ {
+		vwScenarios(t, out, seed0+int64(100*rep), rep)
+	}
+	b, err := json.Marshal(out)
+	if err != nil {
+		t.Fatal(err)
+	}
+	dir := os.Getenv("VERIF_OUT")
+	if dir == "" {
+		dir = os.TempDir()
+	}
+	if err := os.WriteFile(filepath.Join(dir, "wrapper.json"), b, 0o644); err != nil {
+		t.Fatal(err)
+	}
+}
+
+func vwScenarios(t *testing.T, out *vwOut, seed int64, rep int) {
+	t.Helper()
+	tag := ""
+	if rep > 0 {
+		tag = fmt.Sprintf("#%d ", rep)
+	}
+	slot0 := uint64(100 * rep)
+	att := func(slot uint64) core.Duty { return core.Duty{Slot: slot0 + slot, Type: core.DutyAttester} }
 	all := func(s *vwScen, d core.Duty, nodes ...int) {
 		for _, i := range nodes {
 			s.propose(i, d)
@@ -466,9 +499,9 @@ func TestVerifWrapper(t *testing.T) {
 		}
 	}
 
-	vwRun(t, out, "baseline: all four propose", seed, func(s *vwScen) { all(s, att(10), 0, 1, 2, 3) })
+	vwRun(t, out, tag+"baseline: all four propose", seed, func(s *vwScen) { all(s, att(10), 0, 1, 2, 3) })
 
-	vwRun(t, out, "participate, decide, replayed DECIDED, late propose", seed+1, func(s *vwScen) {
+	vwRun(t, out, tag+"participate, decide, replayed DECIDED, late propose", seed+1, func(s *vwScen) {
 		d := att(11)
 		s.participate(0, d)
 		all(s, d, 1, 2, 3)
@@ -481,7 +514,7 @@ func TestVerifWrapper(t *testing.T) {
 		s.propose(0, d)
 	})
 
-	vwRun(t, out, "propose, decide, replayed COMMIT quorum and PRE-PREPARE, late participate and propose again", seed+2, func(s *vwScen) {
+	vwRun(t, out, tag+"propose, decide, replayed COMMIT quorum and PRE-PREPARE, late participate and propose again", seed+2, func(s *vwScen) {
 		d := att(12)
 		all(s, d, 0, 1, 2, 3)
 		for _, m := range s.seen(d, qbft.MsgPrePrepare) {
@@ -496,10 +529,11 @@ func TestVerifWrapper(t *testing.T) {
 		s.participate(1, d)
 	})
 
-	vwRun(t, out, "member down while the others decide; replays; then participate and late propose", seed+3, func(s *vwScen) {
+	vwRun(t, out, tag+"member down while the others decide; replays; then participate and late propose", seed+3, func(s *vwScen) {
 		d := att(13)
 		s.setDown(0, true)
 		all(s, d, 1, 2, 3)
+		s.sleep(3 * time.Second)
 		s.setDown(0, false)
 		if dm := s.decidedMsg(d, 2); dm != nil {
 			s.participate(0, d)
@@ -513,9 +547,10 @@ func TestVerifWrapper(t *testing.T) {
 		s.participate(0, d)
 	})
 
-	vwRun(t, out, "messages before the local propose (buffered), then propose", seed+4, func(s *vwScen) {
+	vwRun(t, out, tag+"messages before the local propose (buffered), then propose", seed+4, func(s *vwScen) {
 		d := att(14)
 		all(s, d, 1, 2, 3) // node 0 buffers everything
+		s.sleep(3 * time.Second)
 		s.propose(0, d)
 		if dm := s.decidedMsg(d, 1); dm != nil {
 			_ = s.replay(0, dm)
@@ -523,7 +558,7 @@ func TestVerifWrapper(t *testing.T) {
 		s.participate(0, d)
 	})
 
-	vwRun(t, out, "propose twice, participate after propose, participate twice", seed+5, func(s *vwScen) {
+	vwRun(t, out, tag+"propose twice, participate after propose, participate twice", seed+5, func(s *vwScen) {
 		d := att(15)
 		s.propose(0, d)
 		s.propose(0, d)
@@ -533,10 +568,11 @@ func TestVerifWrapper(t *testing.T) {
 		s.participate(2, d)
 	})
 
-	vwRun(t, out, "decide, expiry, late messages and late propose", seed+6, func(s *vwScen) {
+	vwRun(t, out, tag+"decide, expiry, late messages and late propose", seed+6, func(s *vwScen) {
 		d := att(16)
 		all(s, d, 1, 2, 3)
 		s.participate(0, d)
+		s.sleep(3 * time.Second)
 		dm := s.decidedMsg(d, 3)
 		s.expire(d)
 		if dm != nil {
@@ -550,9 +586,10 @@ func TestVerifWrapper(t *testing.T) {
 		s.participate(1, d)
 	})
 
-	vwRun(t, out, "expiry before the member ever started; late messages and late propose", seed+7, func(s *vwScen) {
+	vwRun(t, out, tag+"expiry before the member ever started; late messages and late propose", seed+7, func(s *vwScen) {
 		d := att(17)
 		all(s, d, 1, 2, 3) // node 0 only buffers
+		s.sleep(3 * time.Second)
 		dm := s.decidedMsg(d, 2)
 		s.expire(d)
 		if dm != nil {
@@ -561,7 +598,7 @@ func TestVerifWrapper(t *testing.T) {
 		s.propose(0, d)
 	})
 
-	vwRun(t, out, "two duties interleaved with replays across them", seed+8, func(s *vwScen) {
+	vwRun(t, out, tag+"two duties interleaved with replays across them", seed+8, func(s *vwScen) {
 		a, b := att(18), att(19)
 		s.participate(0, a)
 		s.propose(1, a)
@@ -585,15 +622,4 @@ func TestVerifWrapper(t *testing.T) {
 		}
 	})
 
-	b, err := json.Marshal(out)
-	if err != nil {
-		t.Fatal(err)
-	}
-	dir := os.Getenv("VERIF_OUT")
-	if dir == "" {
-		dir = os.TempDir()
-	}
-	if err := os.WriteFile(filepath.Join(dir, "wrapper.json"), b, 0o644); err != nil {
-		t.Fatal(err)
-	}
 }
